@@ -440,6 +440,14 @@ inductive Op
   | restart
 deriving Repr
 
+/-- Which request a proposal turns into (`Approve::handle_proposed_invoice` / `handle_proposed_keysend` of
+    vls-protocol-signer), given the approver's answer and whether the payee is on the node's allowlist
+    (`Allowable::Payee`): the invoice of an allowlisted payee goes to `add_invoice` WITHOUT asking the approver;
+    `handle_proposed_keysend` does not look at the allowlist (TODO in the source), there only the approver decides.
+    (The `has_payment` shortcut in front of both is the first branch of `Node.approve` / `Node.proposeDeclined`.) -/
+def proposalOp (isInvoice allowlisted approverYes : Bool) (h : Hash) (inv : Invoice) (now : Nat) : Op :=
+  if approverYes || (isInvoice && allowlisted) then .approve h inv now else .decline h inv
+
 def Op.mentioned : Op → List Hash
   | .cpSign _ _ i => hashes i.inc ++ hashes i.out
   | .hValidate _ _ i => hashes i.inc ++ hashes i.out
